@@ -1007,3 +1007,26 @@ theorem C04_facts_target_literal :
     protoregistry.GlobalTypes or protoregistry.GlobalFiles -/
 theorem C04_facts_no_global_registry : GB.Generated.c04GlobalRegistryRefs = [] := by
   decide
+
+/-! ## facts tie for the Duration text form (round 5; extract/c04.go, regenerated on every run) -/
+
+/-- the Duration case of `gwquery.parseMessage` is `time.ParseDuration(value)` followed by `durationpb.New(d)` on the
+    unmodified result — nothing in between (a truncation, a second parser, a lenient fallback would show up here) -/
+theorem C04_facts_duration_calls :
+    GB.Generated.c04DurationCalls = ["time.ParseDuration(value)", "durationpb.New(d)"] := by decide
+
+/-- the model's unit table is `unitMap` of the time package the harness is built with (go/ast over GOROOT/src/time):
+    the same eight units with the same nanosecond values — and nothing else is a unit -/
+theorem C04_facts_duration_units :
+    GB.Generated.c04TimeUnitMap.length = 8 ∧
+    GB.Generated.c04TimeUnitMap.all (fun e => (durUnit (e.1.map UInt8.ofNat)).map Prod.fst == some e.2) = true := by
+  decide
+
+/-- why the model is exact inside its domain: for every unit, 10^maxk divides the unit (so `float64(unit)/scale` is an
+    integer for fractions of at most maxk digits), and the unit — hence every product `f · unit/10^k` with `f < 10^k` —
+    is below 2^53 (exactly representable in float64) -/
+theorem C04_duration_exact_domain :
+    GB.Generated.c04TimeUnitMap.all (fun e => match durUnit (e.1.map UInt8.ofNat) with
+      | some (unit, maxk) => unit % 10 ^ maxk == 0 && decide (unit < 2 ^ 53) && decide (10 ^ maxk ≤ unit)
+      | none => false) = true := by
+  decide
